@@ -212,7 +212,32 @@ func (core *JApiCore) ProcessAllOf() *jerr.JApiError {
 		return je
 	}
 
-	return core.processResponseAllOf()
+	if je := core.processResponseAllOf(); je != nil {
+		return je
+	}
+
+	return core.processJsonRpcAllOf()
+}
+
+// processJsonRpcAllOf: the Params and the Result of a JSON-RPC method inherit as every other schema does.
+func (core *JApiCore) processJsonRpcAllOf() *jerr.JApiError {
+	return adoptError(core.catalog.Interactions.Each(func(_ catalog.InteractionID, v catalog.Interaction) error {
+		ri, ok := v.(*catalog.JsonRpcInteraction)
+		if !ok {
+			return nil
+		}
+		if p := ri.Params; p != nil && p.Schema != nil && p.Schema.Notation == notation.SchemaNotationJSight {
+			if err := core.processSchemaContentJSightAllOf(p.Schema.ContentJSight, p.Schema.UsedUserTypes); err != nil {
+				return p.Directive.BodyError(err.Error())
+			}
+		}
+		if r := ri.Result; r != nil && r.Schema != nil && r.Schema.Notation == notation.SchemaNotationJSight {
+			if err := core.processSchemaContentJSightAllOf(r.Schema.ContentJSight, r.Schema.UsedUserTypes); err != nil {
+				return r.Directive.BodyError(err.Error())
+			}
+		}
+		return nil
+	}))
 }
 
 func (core *JApiCore) processUserTypes() *jerr.JApiError {
@@ -342,6 +367,16 @@ func (core *JApiCore) processResponseAllOf() *jerr.JApiError {
 }
 
 func (core *JApiCore) processSchemaContentJSightAllOf(sc *catalog.SchemaContentJSight, uut *catalog.StringSet) error {
+	// The items of an array may be objects with an allOf rule of their own.
+	if sc.TokenType == jschema.TokenTypeArray {
+		for _, v := range sc.Children {
+			if err := core.processSchemaContentJSightAllOf(v, uut); err != nil {
+				return err
+			}
+		}
+		return nil
+	}
+
 	if sc.TokenType != jschema.TokenTypeObject {
 		return nil
 	}
